@@ -24,7 +24,7 @@ Your job: produce {n} different candidate changes ("mutants") to the library sou
   2. still COMPILES, and
   3. still PASSES the existing test suite unchanged: `cd {wt} && cargo test --workspace --no-fail-fast --offline` must report the same passing tests (35 unit tests + 1 doctest) - do not edit or delete existing tests.
 
-This is a THIRD round. The library is guarded by dynamic checks (think: generated workloads over all ciphersuites and modes with boundary-length inputs, an independent RFC 9180 reference implementation to compare against, adversarial delivery histories, sanitizers, feature-matrix builds, multi-threaded placements). Two earlier rounds of mutants were ALL caught. Your goal is to find changes that such checks are LIKELY TO MISS: think about what a test generator would plausibly never produce - a specific relation between two inputs, a specific value class, a specific long history, a combination of an unusual feature set with an unusual input, behaviour that depends on an earlier call's arguments, state that survives in a context across calls, behaviour that differs only between API forms, only in release builds, only on one KEM/KDF/AEAD, only above some size. The change must still be something a maintainer could plausibly commit (an optimisation, a refactor, a hardening, a copy-paste slip), not an obvious backdoor keyed on a magic constant.
+This is a LATER round (three rounds have been run). The library is guarded by dynamic checks (think: generated workloads over all ciphersuites and modes with boundary-length inputs, an independent RFC 9180 reference implementation to compare against, adversarial delivery histories, sanitizers, feature-matrix builds, multi-threaded placements). Nearly all earlier mutants were caught (also: release-only code, 32-bit and big-endian targets via Miri, objects reused across calls, concurrent storms, argument aliasing, length sweeps, alternative framings, freed-heap residue are covered by now). Do NOT use `git stash` (it is shared between worktrees); use `git diff > file; git checkout -- .; git apply file`. Your goal is to find changes that such checks are LIKELY TO MISS: think about what a test generator would plausibly never produce - a specific relation between two inputs, a specific value class, a specific long history, a combination of an unusual feature set with an unusual input, behaviour that depends on an earlier call's arguments, state that survives in a context across calls, behaviour that differs only between API forms, only in release builds, only on one KEM/KDF/AEAD, only above some size. The change must still be something a maintainer could plausibly commit (an optimisation, a refactor, a hardening, a copy-paste slip), not an obvious backdoor keyed on a magic constant.
 
 Ideas that were ALREADY used (do not repeat them or close variants):
 {chr(10).join(prior)}
